@@ -8,6 +8,6 @@ NOT_APPLICABLE = {}
 CLAIMED = {
  "C01": dict(
   technique="TLA+ reference codec (DataX.tla) model-checked with TLC; trace validation of real DataOutputX/DataInputX calls against it",
-  text="TLC explores every program of <=2 (thorough: 3) writes over the boundary value set against the reference format (lossless, canonical, exact consumption, self-delimiting), and validates recorded calls of the real codec -- value, appended bytes, Size(), read result, Available() -- byte for byte against the same operators; a mismatch is a line TLC cannot take.",
+  text="TLC explores every program of <=2 writes over the boundary value set (thorough: also with 65535/65536-byte payloads, and every program of 3 writes over a reduced boundary set) against the reference format (lossless, canonical, exact consumption, self-delimiting), and validates recorded calls of the real codec -- value, appended bytes, Size(), read result, Available() -- byte for byte against the same operators; a mismatch is a line TLC cannot take.",
   note="Trusts TLC, the harness projection (encoding/binary, math.Float*bits) and that sampled programs (boundary-biased, all 24 op kinds, all length thresholds) represent the value space; 2^24/2^32 pattern spaces are sampled, not enumerated."),
 }
